@@ -6,7 +6,7 @@ CONSTANTS
   MaxWrite = 3
   Variant = "code"
   EmitOps = TRUE
-  Backward = FALSE
+  Backward = TRUE
   EmitEvery = 1
 INVARIANT Inv
 PROPERTY Refines
